@@ -26,3 +26,5 @@ def run(F, rep):
     rep.run(lemmas.kmer_iter_e2e_lemmas, F, rep, "L-iter")
     # reads may be handed over as views (forward or reverse-complemented, at any offset of a packed store): the k-mers the filter\n    # sees are read through Vmer::get_kmer on them
     rep.run(common.run_store_kmer_lemmas, F, rep, "C05.9")
+    # provided methods of the k-mer iterators that the crate overrides (fold, count, last, nth …) must agree with next()
+    rep.run(dt_seq.kmer_iter_override_table, F, rep, "C05.8")
